@@ -195,8 +195,10 @@ ob("C15", "O-C15.play.legal", BD + "c15_play_legal_no_panic", "play does not pan
    ["Board::play", "Board::try_play"], timeout=900)
 ob("C15", "O-C15.play.illegal-panics", BD + "c15_play_illegal_panics", "play panics on every illegal move",
    ["Board::play", "Board::try_play"], timeout=900, should_panic=True)
-ob("C15", "O-C15.try_play.end-to-end", BD + "c15_try_play_end_to_end", "no stubs: try_play (real is_legal, real play_unchecked) returns Ok exactly for the moves legal by the rules, and a rejected move leaves every field unchanged",
+ob("C15", "O-C15.try_play.end-to-end.pieces", BD + "c15_try_play_end_to_end_pieces", "no stubs, non-pawn origins: try_play (real is_legal, real play_unchecked) returns Ok exactly for the moves legal by the rules, and a rejected move leaves every field unchanged",
    ["Board::try_play", "Board::is_legal", "Board::play_unchecked"], timeout=5400, cut=True, flags=BF, tier="thorough")
+ob("C15", "O-C15.try_play.end-to-end.pawn-illegal", BD + "c15_try_play_end_to_end_pawn_illegal", "no stubs: every illegal pawn move is rejected by try_play and leaves every field unchanged",
+   ["Board::try_play", "Board::is_legal", "Board::add_pawn_legals"], timeout=5400, flags=BF, tier="thorough")
 # ------------------------------------------------------------------------------------------- C13
 ob("C13", "O-C13.same_position", BD + "c13_same_position", "same_position(a, b) == same placement, side, rights and the same file on which a PAWN can legally capture en passant (or none), for all pairs of accepted boards; is_legal and the EP-less hash through their contracts",
    ["Board::same_position", "effective_ep", "ZobristBoard::board_is_equal"], timeout=3000, flags=BF, expect_covers=2)
